@@ -34,20 +34,19 @@ ENGINES = ["lean-model", "pyextract", "purediff"]
 LEVEL_TEXT = (
     "Lean theorems, no size/depth bounds: for all outcome lists and warnings (allowed_iff, status_iff_denied, "
     "error_priority incl. first-among-equals, status_code_message, warnings_order, prio_strict_order); for all "
-    "handlers/causes (gate_spec, select_spec); for all bodies and all patches (apply_total_on_welltyped, "
-    "fidelity_partial: under the guard WellTyped = 'patch mappings only descend into mappings or absent keys, keys "
-    "unique per level' the mutated body has exactly the leaves of the RFC 7386 merge at every path, i.e. equality up "
-    "to key order and the presence of empty mappings; dropEmpty_leafEq ties that relation to the drop-empty normal "
-    "form). The unguarded fidelity clause and the clause 'handlers match the operation' are FALSE of the code: their "
-    "negations are proved with witnesses (apply_error_witness, fidelity_unguarded_witness, "
-    "gate_ignores_operations_witness), replayed on the real code on every run and listed as open findings "
-    "F4, C18-F2, C18-F3. jsonpatch.from_diff is outside the model (contract only); two deviations from its contract "
-    "are open findings C18-F4, C18-F5. Model tied by translator (T) and differential runs (D).")
+    "handlers/causes (gate_spec, select_spec); for ALL mapping bodies and ALL patches, without any well-typedness or "
+    "key-uniqueness guard (code after the repair 74dc18a): apply_total (no exception) and fidelity (the mutated body "
+    "has exactly the leaves of the RFC 7386 merge at every path = equality up to key order and the presence of empty "
+    "mappings; dropEmpty_leafEq ties that relation to the drop-empty normal form); the former defects F4 / C18-F2 are "
+    "now positive instances (mapping_over_scalar_replaces, empty_mapping_over_scalar_replaces); the only remaining "
+    "guard 'the body is a mapping' is shown necessary (apply_nonmapping_root_raises). The clause 'handlers match the "
+    "operation' is FALSE of the code: negation proved with a witness (gate_ignores_operations_witness), replayed on "
+    "the real code on every run, open finding C18-F3. jsonpatch.from_diff is outside the model (contract only); two "
+    "deviations from its contract are open findings C18-F4, C18-F5. Model tied by translator (T) and differential runs (D).")
 TIE = ("T (sort key of build_response, class hierarchy of AdmissionError, iter_handlers gate, _matches_subresource, "
        "its use in match(): AST -> Lean, re-proved equal; other statements of build_response anchored verbatim) + "
        "D (real Patch._apply_patch + fns, Patch.as_json_patch through an independent RFC 6902 applier, "
-       "build_response, serve_admission_request vs the Lean model; Lean mergePatch vs Python RFC 7386 reference). "
-       "On ill-typed inputs the apply-tie accepts the modelled defect or a property-conforming result.")
+       "build_response, serve_admission_request vs the Lean model; Lean mergePatch vs Python RFC 7386 reference).")
 THEOREMS = [
     ("Kopf.Props.C18", "Kopf.C18.allowed_iff"),
     ("Kopf.Props.C18", "Kopf.C18.status_iff_denied"),
@@ -58,10 +57,11 @@ THEOREMS = [
     ("Kopf.Props.C18", "Kopf.C18.gate_spec"),
     ("Kopf.Props.C18", "Kopf.C18.select_spec"),
     ("Kopf.Props.C18", "Kopf.C18.gate_ignores_operations_witness"),
-    ("Kopf.Props.C18", "Kopf.C18.apply_total_on_welltyped"),
-    ("Kopf.Props.C18", "Kopf.C18.fidelity_partial"),
-    ("Kopf.Props.C18", "Kopf.C18.apply_error_witness"),
-    ("Kopf.Props.C18", "Kopf.C18.fidelity_unguarded_witness"),
+    ("Kopf.Props.C18", "Kopf.C18.apply_total"),
+    ("Kopf.Props.C18", "Kopf.C18.fidelity"),
+    ("Kopf.Props.C18", "Kopf.C18.mapping_over_scalar_replaces"),
+    ("Kopf.Props.C18", "Kopf.C18.empty_mapping_over_scalar_replaces"),
+    ("Kopf.Props.C18", "Kopf.C18.apply_nonmapping_root_raises"),
     ("Kopf.Props.C18", "Kopf.C18.dropEmpty_leafEq"),
 ]
 TIE_THEOREMS = [
@@ -1132,12 +1132,7 @@ def run_shard(args: tuple[str, int, list | None]) -> dict:
             for what, sig in res.fails:
                 out["fails"].append((what, sig, case))
             for what, req, impl in res.reqs:
-                # On ill-typed inputs (where the theorems claim nothing but the witnesses) the tie accepts,
-                # besides the modelled behaviour, an implementation result that conforms to the property
-                # (what a repair of F4 / C18-F2 would give); the oracle has checked it independently.
-                alt = bool(what.startswith("apply") and res.illtyped and impl[0] == "ok" and res.want is not None
-                           and eq_strict(strip_empty(impl[1]), strip_empty(res.want)))
-                out["reqs"].append((what, req, impl, case, alt))
+                out["reqs"].append((what, req, impl, case))
     asyncio.run(go())
     return out
 
@@ -1169,10 +1164,7 @@ def absorb(ctx: Ctx, out: dict, ask: bool = True) -> None:
     except leanio.LeanError as e:
         # the driver process itself did not run (toolchain / shared Driver.lean problem): exit 2, not a verdict
         raise RuntimeError(f"Lean driver failed: {e}\n{e.log[-2000:]}")
-    for (what, req, impl, case, alt), ans in zip(out["reqs"], answers):
-        if alt and leanio.canon(impl) != leanio.canon(ans):
-            ctx.count("tie", "apply:ill-typed input, implementation conforms to the property (model mirrors F4/C18-F2)")
-            continue
+    for (what, req, impl, case), ans in zip(out["reqs"], answers):
         ctx.compare(f"C18 {what}", impl, ans, {**_rp(case), "request": req})
         ctx.count("tie", what.split("(")[0])
     ctx.traces += len(answers)
